@@ -7,6 +7,7 @@ import (
 	"sort"
 	"strings"
 	"sync"
+	"sync/atomic"
 
 	"github.com/oneconcern/datamon/pkg/core"
 	"github.com/oneconcern/datamon/pkg/model"
@@ -48,12 +49,18 @@ type c12Bundle struct {
 }
 
 func c12Classify(kinds []string) func(actor int, op, key string) string {
+	// a commit first lists the splits, then reads their descriptors and file lists: the reads are a class of their
+	// own, so that other actors can be scheduled between what the commit listed and what it reads
+	reading := make([]int32, len(kinds))
 	return func(actor int, op, key string) string {
 		base := path.Base(key)
 		switch {
 		case strings.HasPrefix(key, "diamonds/"):
 			switch {
 			case op == "list":
+				if atomic.LoadInt32(&reading[actor]) == 1 {
+					return "collectread"
+				}
 				return "collect"
 			case strings.Contains(key, "/splits/") && strings.HasPrefix(base, "split-"):
 				if op == "put" {
@@ -65,12 +72,14 @@ func c12Classify(kinds []string) func(actor int, op, key string) string {
 				if kinds[actor] == "split" {
 					return "readsplit"
 				}
-				return "collect"
+				atomic.StoreInt32(&reading[actor], 1)
+				return "collectread"
 			case strings.Contains(key, "/splits/"):
 				if op == "put" {
 					return "wlists"
 				}
-				return "collect"
+				atomic.StoreInt32(&reading[actor], 1)
+				return "collectread"
 			case strings.HasPrefix(base, "diamond-"):
 				if op == "put" {
 					return "wdone"
@@ -194,6 +203,11 @@ func c12Run(cs *c12Case, r *gen.Rand, replay bool) {
 		if idx >= len(waiting) {
 			idx = len(waiting) - 1
 		}
+		if crash && classes[idx] == "collectread" {
+			// a read that fails inside the commit's listing of splits never returns (the listing workers wait for
+			// one another, see DESIGN.md): the crash is taken at the commit's next gate instead
+			crash, d = false, idx
+		}
 		made = append(made, d)
 		return waiting[idx], crash
 	})
@@ -284,12 +298,14 @@ func c12Coq(cs *c12Case) string {
 			as[i] = fmt.Sprintf("fresh_split %d %d", a.Split, i)
 		}
 	}
-	es := make([]string, len(cs.Events))
-	for i, e := range cs.Events {
-		if e.Class == "crash" {
-			es[i] = fmt.Sprintf("(%d, None)", e.Actor)
-		} else {
-			es[i] = fmt.Sprintf("(%d, Some (%s, %v))", e.Actor, c12ClassCoq[e.Class], e.Ok)
+	var es []string
+	for _, e := range cs.Events {
+		switch {
+		case e.Class == "crash":
+			es = append(es, fmt.Sprintf("(%d, None)", e.Actor))
+		case e.Class == "collectread": // part of the commit's collection, which the model takes at the listing
+		default:
+			es = append(es, fmt.Sprintf("(%d, Some (%s, %v))", e.Actor, c12ClassCoq[e.Class], e.Ok))
 		}
 	}
 	pairs := func(l [][2]int) string {
@@ -373,6 +389,7 @@ func init() {
 				if cs.CountOnly {
 					continue // re-derived from the schedule it accompanies
 				}
+				c.Pending(&cs)
 				c12Run(&cs, r, true)
 				emit(&cs)
 			}
@@ -381,10 +398,12 @@ func init() {
 		// the two recorded schedules, in every run
 		k1 := &c12Case{Actors: []c12Actor{{Kind: "split", Split: 0}, {Kind: "commit"}, {Kind: "commit"}},
 			Decisions: []int{0, 0, 0, 0, 0, 0, 1, 0, 1, 0, 1, 0, 1, 0, 0}}
+		c.Pending(k1)
 		c12Run(k1, r, true)
 		emit(k1)
 		k2 := &c12Case{Actors: []c12Actor{{Kind: "split", Split: 0}, {Kind: "commit"}, {Kind: "commit"}},
 			Decisions: []int{0, 0, 0, 0, 0, 0, 0, 0, 0, 1000, 0, 0, 0, 0, 0}}
+		c.Pending(k2)
 		c12Run(k2, r, true)
 		emit(k2)
 		n := 120
@@ -420,6 +439,7 @@ func init() {
 					}
 				}
 			}
+			c.Pending(cs)
 			c12Run(cs, r, false)
 			emit(cs)
 		}
